@@ -1,6 +1,7 @@
 (* C10/C11 - executable form of the specification in Semantics.v:
-   `sem s ls` = (set of possible completions of `s`, positions of the entered
-   sub-statements).  Proved equivalent to `exec`/`enters` in SemDecideProofs.v.
+   `csem s ls` = set of possible completions of `s`; `reach s` = positions of the
+   sub-statements that can be entered.  Proved equivalent to `exec`/`enters` in
+   SemDecideProofs.v.
    Used for search (the oracles of the check) and as the semantic side of the
    soundness proofs. *)
 From V Require Export CF.Semantics.
@@ -34,93 +35,111 @@ Definition is_nil {A} (l : list A) : bool := match l with [] => true | _ => fals
 Definition cnonempty (c : comps) : bool :=
   cN c || cR c || cT c || cB0 c || cC0 c || negb (is_nil (cBL c)) || negb (is_nil (cCL c)).
 
-(* loop { pre; body; post } with labels ls, given the body's result *)
-Definition sem_loop (pre post : cond) (ls : list N) (body : comps * list N) : comps * list N :=
+(* loop { pre; body; post } with labels ls, given the completions of the body *)
+Definition sem_loop (pre post : cond) (ls : list N) (bc : comps) : comps :=
   let t := cunion (t_if (cond_throws pre)) (n_if (may_false pre)) in
   if may_true pre then
-    let bc := fst body in
     let again := cN bc || cC0 bc || existsb (fun l => memN l ls) (cCL bc) in
-    let out := {| cN := cB0 bc || (again && may_false post); cR := cR bc;
-                  cT := cT bc || (again && cond_throws post); cB0 := false; cC0 := false;
-                  cBL := cBL bc; cCL := filter (fun l => negb (memN l ls)) (cCL bc) |} in
-    (cunion t out, snd body)
-  else (t, []).
+    cunion t {| cN := cB0 bc || (again && may_false post); cR := cR bc;
+                cT := cT bc || (again && cond_throws post); cB0 := false; cC0 := false;
+                cBL := cBL bc; cCL := filter (fun l => negb (memN l ls)) (cCL bc) |}
+  else t.
 
-(* finalizer: `tc` = completions of block+handler, `fin` = result of the finalizer body *)
-Definition sem_fin (tc : comps) (fin : comps * list N) : comps * list N :=
-  if cnonempty tc then
-    (cunion (if cN (fst fin) then tc else cempty) (cset_N false (fst fin)), snd fin)
-  else (cempty, []).
+(* try block + handler: `bc` block, `hc` handler body *)
+Definition sem_catch (h : option (N * N)) (bc hc : comps) : comps :=
+  match h with
+  | Some _ => if cT bc then cunion (cset_T false bc) hc else bc
+  | None => bc
+  end.
 
-Fixpoint sem (s : stmt) (ls : list N) {struct s} : comps * list N :=
-  let '(c, rs) :=
-    match s with
-    | SExpr _ e => (cset_T (e_throws e) only_N, [])
-    | SEmpty _ => (only_N, [])
-    | SVar _ _ i => (cset_T (oe_throws i) only_N, [])
-    | SFnDecl _ _ _ b | SArrowStmt _ _ b => (only_N, snd (sem_l b))
-    | SRet _ a => ({| cN := false; cR := true; cT := oe_throws a; cB0 := false; cC0 := false; cBL := []; cCL := [] |}, [])
-    | SThrow _ _ => (t_if true, [])
-    | SBrk _ None => ({| cN := false; cR := false; cT := false; cB0 := true; cC0 := false; cBL := []; cCL := [] |}, [])
-    | SBrk _ (Some l) => ({| cN := false; cR := false; cT := false; cB0 := false; cC0 := false; cBL := [l]; cCL := [] |}, [])
-    | SCont _ None => ({| cN := false; cR := false; cT := false; cB0 := false; cC0 := true; cBL := []; cCL := [] |}, [])
-    | SCont _ (Some l) => ({| cN := false; cR := false; cT := false; cB0 := false; cC0 := false; cBL := []; cCL := [l] |}, [])
-    | SBlock _ b => sem_l b
-    | SIf _ c a =>
-        let ra := sem a [] in
-        (cunion (t_if (cond_throws c)) (cunion (if may_true c then fst ra else cempty) (n_if (may_false c))),
-         if may_true c then snd ra else [])
-    | SIfElse _ c a b =>
-        let ra := sem a [] in
-        let rb := sem b [] in
-        (cunion (t_if (cond_throws c)) (cunion (if may_true c then fst ra else cempty) (if may_false c then fst rb else cempty)),
-         (if may_true c then snd ra else []) ++ (if may_false c then snd rb else []))
-    | SWhile _ c b => sem_loop c CTrue ls (sem b [])
-    | SDoWhile _ b c => sem_loop CTrue c ls (sem b [])
-    | SFor _ (Some c) b => sem_loop c CTrue ls (sem b [])
-    | SFor _ None b => sem_loop CTrue CTrue ls (sem b [])
-    | SForIn _ b | SForOf _ b => sem_loop opaque CTrue ls (sem b [])
-    | SSwitch _ cs =>
-        let '(_, ca, rs) := sem_c cs in
-        ({| cN := cN ca || cB0 ca || negb (has_default cs); cR := cR ca; cT := cT ca; cB0 := false; cC0 := cC0 ca;
-            cBL := cBL ca; cCL := cCL ca |}, rs)
-    | SLabel _ l b =>
-        let '(c, rs) := sem b (l :: ls) in
-        ({| cN := cN c || memN l (cBL c); cR := cR c; cT := cT c; cB0 := cB0 c; cC0 := cC0 c;
-            cBL := filter (fun x => negb (N.eqb x l)) (cBL c); cCL := cCL c |}, rs)
-    | STry _ _ blk h hb f fb =>
-        let '(bc, rb) := sem_l blk in
-        let '(tc, rh) := match h with
-                         | Some _ => if cT bc then let '(hc, rh) := sem_l hb in (cunion (cset_T false bc) hc, rh)
-                                     else (bc, [])
-                         | None => (bc, [])
-                         end in
-        match f with
-        | None => (tc, rb ++ rh)
-        | Some _ => let '(c, rf) := sem_fin tc (sem_l fb) in (c, rb ++ rh ++ rf)
-        end
-    end in
-  (c, pos s :: rs)
-with sem_l (l : stmts) {struct l} : comps * list N :=
-  match l with
-  | SNil => (only_N, [])
-  | SCons t r =>
-      let '(c, rs) := sem t [] in
-      if cN c then let '(c2, rs2) := sem_l r in (cunion (cset_N false c) c2, rs ++ rs2)
-      else (c, rs)
+(* finalizer: `tc` = completions of block+handler, `fc` = completions of the finalizer body *)
+Definition sem_fin (f : option N) (tc fc : comps) : comps :=
+  match f with
+  | None => tc
+  | Some _ => if cnonempty tc then cunion (if cN fc then tc else cempty) (cset_N false fc) else cempty
+  end.
+
+(* completions *)
+Fixpoint csem (s : stmt) (ls : list N) {struct s} : comps :=
+  match s with
+  | SExpr _ e => cset_T (e_throws e) only_N
+  | SEmpty _ => only_N
+  | SVar _ _ i => cset_T (oe_throws i) only_N
+  | SFnDecl _ _ _ _ | SArrowStmt _ _ _ => only_N
+  | SRet _ a => {| cN := false; cR := true; cT := oe_throws a; cB0 := false; cC0 := false; cBL := []; cCL := [] |}
+  | SThrow _ _ => t_if true
+  | SBrk _ None => {| cN := false; cR := false; cT := false; cB0 := true; cC0 := false; cBL := []; cCL := [] |}
+  | SBrk _ (Some l) => {| cN := false; cR := false; cT := false; cB0 := false; cC0 := false; cBL := [l]; cCL := [] |}
+  | SCont _ None => {| cN := false; cR := false; cT := false; cB0 := false; cC0 := true; cBL := []; cCL := [] |}
+  | SCont _ (Some l) => {| cN := false; cR := false; cT := false; cB0 := false; cC0 := false; cBL := []; cCL := [l] |}
+  | SBlock _ b => csem_l b
+  | SIf _ c a =>
+      cunion (t_if (cond_throws c)) (cunion (if may_true c then csem a [] else cempty) (n_if (may_false c)))
+  | SIfElse _ c a b =>
+      cunion (t_if (cond_throws c))
+             (cunion (if may_true c then csem a [] else cempty) (if may_false c then csem b [] else cempty))
+  | SWhile _ c b => sem_loop c CTrue ls (csem b [])
+  | SDoWhile _ b c => sem_loop CTrue c ls (csem b [])
+  | SFor _ (Some c) b => sem_loop c CTrue ls (csem b [])
+  | SFor _ None b => sem_loop CTrue CTrue ls (csem b [])
+  | SForIn _ b | SForOf _ b => sem_loop opaque CTrue ls (csem b [])
+  | SSwitch _ cs =>
+      let ca := snd (csem_c cs) in
+      {| cN := cN ca || cB0 ca || negb (has_default cs); cR := cR ca; cT := cT ca; cB0 := false; cC0 := cC0 ca;
+         cBL := cBL ca; cCL := cCL ca |}
+  | SLabel _ l b =>
+      let c := csem b (l :: ls) in
+      {| cN := cN c || memN l (cBL c); cR := cR c; cT := cT c; cB0 := cB0 c; cC0 := cC0 c;
+         cBL := filter (fun x => negb (N.eqb x l)) (cBL c); cCL := cCL c |}
+  | STry _ _ blk h hb f fb =>
+      sem_fin f (sem_catch h (csem_l blk) (csem_l hb)) (csem_l fb)
   end
-(* (falling through from the first case, jumping to any case, entered positions) *)
-with sem_c (cs : cases) {struct cs} : comps * comps * list N :=
+with csem_l (l : stmts) {struct l} : comps :=
+  match l with
+  | SNil => only_N
+  | SCons t r =>
+      let c := csem t [] in
+      if cN c then cunion (cset_N false c) (csem_l r) else c
+  end
+(* (falling through from the first case, jumping to any case) *)
+with csem_c (cs : cases) {struct cs} : comps * comps :=
   match cs with
-  | CNil => (only_N, cempty, [])
+  | CNil => (only_N, cempty)
   | CCons _ _ _ b r =>
-      let '(cb, rb) := sem_l b in
-      let '(ch, ca, rr) := sem_c r in
-      let here := if cN cb then cunion (cset_N false cb) ch else cb in
-      (here, cunion here ca, rb ++ rr)
+      let cb := csem_l b in
+      let here := if cN cb then cunion (cset_N false cb) (fst (csem_c r)) else cb in
+      (here, cunion here (snd (csem_c r)))
+  end.
+
+(* positions of the sub-statements that can be entered *)
+Fixpoint reach (s : stmt) : list N :=
+  pos s ::
+  match s with
+  | SFnDecl _ _ _ b | SArrowStmt _ _ b | SBlock _ b => reach_l b
+  | SIf _ c a => if may_true c then reach a else []
+  | SIfElse _ c a b => (if may_true c then reach a else []) ++ (if may_false c then reach b else [])
+  | SWhile _ c b | SFor _ (Some c) b => if may_true c then reach b else []
+  | SDoWhile _ b _ | SFor _ None b | SForIn _ b | SForOf _ b | SLabel _ _ b => reach b
+  | SSwitch _ cs => reach_c cs
+  | STry _ _ blk h hb f fb =>
+      let bc := csem_l blk in
+      reach_l blk
+      ++ (match h with Some _ => if cT bc then reach_l hb else [] | None => [] end)
+      ++ (match f with Some _ => if cnonempty (sem_catch h bc (csem_l hb)) then reach_l fb else [] | None => [] end)
+  | _ => []
+  end
+with reach_l (l : stmts) : list N :=
+  match l with
+  | SNil => []
+  | SCons t r => reach t ++ (if cN (csem t []) then reach_l r else [])
+  end
+with reach_c (cs : cases) : list N :=
+  match cs with
+  | CNil => []
+  | CCons _ _ _ b r => reach_l b ++ reach_c r
   end.
 
 (* ------------------------------------------------------------------ *)
 (* program-level oracles *)
-Definition prog_reach (p : program) : list N := snd (sem_l (p_body p)).
-Definition prog_can_fall_off (p : program) : bool := cN (fst (sem_l (p_body p))).
+Definition prog_reach (p : program) : list N := reach_l (p_body p).
+Definition prog_can_fall_off (p : program) : bool := cN (csem_l (p_body p)).
